@@ -348,6 +348,70 @@ def sent_ids_behind_backlog(ctx: Ctx, framing: str, first: Any, drain: Any) -> N
         res.violation("C13/backlog/extra-frames", f"slow device decoded {len(got)} frames, the same calls produce {len(ref)}: extra {[g[0] for g in got[len(ref):]][:4]}", case)
 
 
+def sent_ids_over_payload_sizes(ctx: Ctx) -> None:
+    """The type number a request leaves under does not depend on how long its payload is: commands with string / bytes arguments sized so that the
+    serialized request sits on and around every boundary of the length encodings (2^7, 2^14, 2^16, 2^17, 2^21 bytes; the Noise frame limit) reach
+    the device under the id api.proto gives their message, with the payload length they were given."""
+    import base64
+
+    from aioesphomeapi import api_pb2 as pb
+    from vf.sim.device import DeviceConfig
+    from vf.sim.scenario import Sim
+
+    res = ctx.res
+    pr = protoparse.load_api()
+    psk = bytes(range(7, 39))
+    sizes = list(range(118, 140)) + list(range(16376, 16392)) + list(range(65520, 65545)) + [131070, 131072, 131075, 2097150, 2097152, 2097155]
+    methods = {
+        "text_command": (lambda c, n: c.text_command(1, "x" * n), "TextCommandRequest", lambda n: pb.TextCommandRequest(key=1, state="x" * n)),
+        "select_command": (lambda c, n: c.select_command(2, "y" * n), "SelectCommandRequest", lambda n: pb.SelectCommandRequest(key=2, state="y" * n)),
+        "send_home_assistant_state": (lambda c, n: c.send_home_assistant_state("sensor.s", None, "z" * n), "HomeAssistantStateResponse",
+                                      lambda n: pb.HomeAssistantStateResponse(entity_id="sensor.s", state="z" * n)),
+        "send_voice_assistant_audio": (lambda c, n: c.send_voice_assistant_audio(b"\x01" * n), "VoiceAssistantAudio", lambda n: pb.VoiceAssistantAudio(data=b"\x01" * n)),
+        "text_command/non-bmp": (lambda c, n: c.text_command(1, "\U0001F600" * (n // 4)), "TextCommandRequest", lambda n: pb.TextCommandRequest(key=1, state="\U0001F600" * (n // 4))),
+    }
+    idx = 0
+    for framing in ("plain", "noise"):
+        for mname, (call, wname, build) in methods.items():
+            idx += 1
+            if not ctx.mine(300 + idx):
+                continue
+            with Sim() as sim:
+                dev = sim.device(DeviceConfig(noise_psk=psk if framing == "noise" else None))
+                cli = sim.client(keepalive=1e5, **({"noise_psk": base64.b64encode(psk).decode()} if framing == "noise" else {}))
+                c0 = sim.call("connect", lambda: cli.connect(login=False))
+                sim.run(until=lambda: c0.done, max_time=sim.clock + 50)
+                if c0.outcome != "ok":
+                    res.inconclusive.append(f"payload sizes: connect failed {c0.exc!r}")
+                    continue
+                want_id = pr.messages[wname].id
+                for n in sizes:
+                    exp = build(n).SerializeToString()
+                    if framing == "noise" and len(exp) > 65515:
+                        continue
+                    # (aim the SERIALIZED size at the boundary: shrink the argument by the fixed overhead of the message)
+                    n2 = max(0, n - (len(exp) - n))
+                    exp = build(n2).SerializeToString()
+                    n0 = len(dev.conn.received)
+                    case = {"framing": framing, "method": mname, "payload_bytes": len(exp)}
+                    try:
+                        call(cli, n2)
+                    except Exception as e:  # noqa: BLE001
+                        res.evaluations += 1
+                        res.violation(f"C13/payload-size/call-raised/{mname.split('/')[0]}", f"{mname} with a {len(exp)}-byte request raised {e!r}", case)
+                        break
+                    sim.run_for(0.01)
+                    got = dev.conn.received[n0:]
+                    res.evaluations += 1
+                    res.count("S/payload-size-observations")
+                    res.sig("S-size", framing, mname, len(exp))
+                    if dev.conn.decode_errors or len(got) != 1 or got[0]["id"] != want_id or got[0]["payload"] != exp:
+                        seen = [(g["id"], g["name"], len(g["payload"])) for g in got][:3]
+                        res.violation(f"C13/payload-size/sent-under-wrong-id/{wname}", f"{mname}: a {len(exp)}-byte {wname} (id {want_id}) reached the device as {seen} "
+                                      f"{dev.conn.decode_errors[:1]}", case, trace=sim.trace(20))
+                        break
+
+
 def shard(ctx: Ctx) -> None:
     if ctx.shard == 0:
         # first: the structural obligations need nothing but the modules and the text (and the workloads below assume some of them)
@@ -357,6 +421,7 @@ def shard(ctx: Ctx) -> None:
                                                  ("noise", "block", ("rate", 2000)), ("plain", ("partial", 2990), ("rate", 1)))):
         if ctx.mine(700 + j):
             sent_ids_behind_backlog(ctx, framing, first, drain)
+    sent_ids_over_payload_sizes(ctx)
     passive_direction(ctx)
     lookup_behaviour(ctx)
     jobs: list[tuple[Any, ...]] = [("plain", (1, 10), False), ("noise", (1, 10), False), ("plain", (1, 10), True), ("noise", (1, 10), True)]
